@@ -317,6 +317,14 @@ def r179(ctx, ut):
     keeps = any(isinstance(n, ast.Assign) and isinstance(n.targets[0], ast.Attribute) and n.targets[0].attr == '_unit' and unparse(n.value) == 'self._unit' for n in walk_shallow(fn))
     arith = [n for n in walk_shallow(fn) if isinstance(n, ast.BinOp)]
     ok = ok_build and keeps and not arith
+    if not ok:
+        # by cases (E10): called with the SI value alone, every path builds type(self)(si) -- nothing else -- and copies the unit of self
+        from .c16 import val_summary
+        vs = val_summary(prog, 'Quantity', {sp})
+        if isinstance(vs, list) and vs:
+            ok_build = all(r['build'] == f'type(self)({sp})' for r in vs)
+            keeps = all(r['attrs'].get('_unit') == 'self._unit' for r in vs)
+            ok = ok_build and keeps
     ctx.ob('R17.9', 'Quantity._val', ok, sample=f'_val: built from the SI value alone {ok_build}; unit copied {keeps}; arithmetic {[short(a) for a in arith]}')
     if not ok:
         ctx.finding('R17.9', 'Quantity._val', ci, fn,
@@ -333,6 +341,19 @@ def r179(ctx, ut):
                for n in walk_shallow(fn))
     arith = [n for n in walk_shallow(fn) if isinstance(n, ast.BinOp) and not isinstance(n.op, ast.Mod)]
     ok = guard and ok_build and sets and not arith
+    if guard and not arith and not ok:
+        # as_unit may hand the work to _val: `return self._val(unit=<new unit>)` is right when _val, called with the unit only, builds
+        # type(self)(float(self)) and stores that unit
+        rs_ = [n for n in walk_shallow(fn) if isinstance(n, ast.Return) and n.value is not None]
+        if len(rs_) == 1 and isinstance(rs_[0].value, ast.Call) and unparse(rs_[0].value.func) == 'self._val' and not rs_[0].value.args \
+                and len(rs_[0].value.keywords) == 1 and unparse(rs_[0].value.keywords[0].value) == nu:
+            from .c16 import val_summary
+            kw = rs_[0].value.keywords[0].arg
+            vs = val_summary(prog, 'Quantity', {kw})
+            if isinstance(vs, list) and vs:
+                ok_build = all(r['build'] in ('type(self)(float(self))', 'type(self)(self.si)') for r in vs)
+                sets = all(r['attrs'].get('_unit') == kw for r in vs)
+                ok = ok_build and sets
     ctx.ob('R17.9', 'Quantity.as_unit', ok, sample=f'as_unit: guard {guard}, copy from SI value without unit {ok_build}, no arithmetic {not arith}')
     if not ok:
         ctx.finding('R17.9', 'Quantity.as_unit', ci, fn,
